@@ -47,6 +47,27 @@ impl<C: Suite> Coord<C> {
     }
 }
 
+/// Shares a signer confused about one of the sign conventions would send. The honest share is z = ±k ± lambda*s*c with
+/// k = d + rho*e; flipping the sign of the nonce part gives z-2k or z+2k, flipping the sign of the key part gives 2k-z or
+/// -2k-z (one of each pair is the confused share, the other just another wrong value). rho is taken from the library's
+/// binding factors under every candidate key - this only *generates* inputs; every variant that differs from z is an
+/// altered share and must be treated as one.
+pub fn parity_confused<C: Suite>(pkg: &frost_core::SigningPackage<C>, nonces: &frost_core::round1::SigningNonces<C>, id: &Identifier<C>, z: Sc<C>, vks: &[VerifyingKey<C>]) -> Vec<(String, Sc<C>)> {
+    let mut out: Vec<(String, Sc<C>)> = vec![];
+    for (vi, vk) in vks.iter().enumerate() {
+        let Ok(bfl) = frost_core::compute_binding_factor_list(pkg, vk, &[]) else { continue };
+        let Some(rho) = bfl.get(id).and_then(|b| sc_decode::<C>(&b.serialize())) else { continue };
+        let k = nonces.hiding().to_scalar() + rho * nonces.binding().to_scalar();
+        let two_k = k + k;
+        for (name, v) in [("z-2k", z - two_k), ("z+2k", z + two_k), ("2k-z", two_k - z), ("-2k-z", neg::<C>(two_k) - z)] {
+            if v != z && !out.iter().any(|(_, o)| *o == v) {
+                out.push((format!("{name}/key{vi}"), v));
+            }
+        }
+    }
+    out
+}
+
 /// honest session, plain or through frost-rerandomized
 pub fn make_coord<C: Suite>(grp: &Grp<C>, signers: &[Identifier<C>], msg: &[u8], rerand: bool, rng: &mut crate::rng::TraceRng) -> Result<Coord<C>, String> {
     if !rerand {
@@ -248,6 +269,17 @@ fn item<C: Suite>(ctx: &mut Ctx, n: u16, t: u16, kind: &str, rerand: bool, max_s
                     judge_alteration(ctx, &a, &sub_sh, akind, &msg);
                     ctx.count("alterations");
                     ctx.class(format!("S={k}/X={}/{akind}/{}/{par}", xs.len(), if rerand { "rerand" } else { "plain" }));
+                }
+            }
+            // one signer confused about a sign convention (nonce part or key part negated)
+            for (xi, id) in order.iter().enumerate() {
+                for (vname, v) in parity_confused::<C>(&a.sess.pkg, &a.sess.nonces[id], id, share_sc::<C>(&honest[id]), &[a.vk, *grp.pkp.verifying_key()]) {
+                    let mut sub_sh = honest.clone();
+                    sub_sh.insert(*id, share_from::<C>(v));
+                    judge_alteration(ctx, &a, &sub_sh, "sign-confused", &msg);
+                    ctx.count("alterations");
+                    ctx.class(format!("S={k}/X=1/sign-confused-{}/{}/{par}", vname.split('/').next().unwrap_or(""), if rerand { "rerand" } else { "plain" }));
+                    let _ = xi;
                 }
             }
             // cancelling pairs and triples at every position pair / triple
